@@ -1,4 +1,7 @@
 import PcfgVerif.Properties.OmenTrainCore
+import PcfgVerif.Lemmas.OmenProbLemmas
+import PcfgVerif.Lemmas.SoftFloatLemmas
+import PcfgVerif.Properties.ProbsCore
 /-!
 # C18 — the saved OMEN keyspace is the number of guesses a level really produces
 
@@ -35,5 +38,93 @@ theorem C18_listing (t : TTables) (maxKeyspace fuel first : Nat) :
     (∀ (i : Nat) p, (t.calcKeyspace maxKeyspace fuel first)[i]? = some p →
       i + 1 < (t.calcKeyspace maxKeyspace fuel first).length → p.2 ≤ maxKeyspace) :=
   calcKeyspace_spec t maxKeyspace fuel first
+
+/-- the third pass: the count filed under a level is the number of passwords of the list that
+`find_omen_level` puts at that level; by `C11_guesser` these are the passwords the generator emits there -/
+theorem C18_third_pass_counts (t : TTables) (pws : List Str) (k : Option Nat) :
+    ctrGet (t.levelsCount pws) k = pws.countP (fun pw => t.trainerLevel pw == k) :=
+  ctrGet_levelsCount t pws k
+
+/-- **the saved probability.**  Every line `(level, p)` of `pcfg_omen_prob` (exact arithmetic; the list of the
+training passwords is the one all three passes read, so `num_valid_passwords = pws.length`): the generator's
+enumeration of that level is complete after some `N` steps, it is not empty, and `p` is the fraction of the
+training passwords the generator emits at that level, divided by the number of strings it emits there. -/
+theorem C18_saved_probability (t : TTables) (hwf : t.WF) (s0 : CState) (hs : t.toTables.start = some s0)
+    (pws : List Str) (maxKeyspace fuel first : Nat) (level : Nat) (p : Rat)
+    (h : (level, p) ∈ omenProbs ratNOps (t.calcKeyspace maxKeyspace fuel first) (t.levelsCount pws) pws.length) :
+    ∃ N, (∀ fuel', N ≤ fuel' → t.toTables.enumFrom level fuel' s0 = t.toTables.enumFrom level N s0) ∧
+      (t.toTables.enumFrom level N s0).length ≠ 0 ∧
+      p = ((pws.countP (fun pw => decide (pw ∈ t.toTables.enumFrom level N s0)) : Nat) : Rat) / (pws.length : Rat)
+            / ((t.toTables.enumFrom level N s0).length : Rat) := by
+  obtain ⟨k, hk, hk0, hp⟩ := (omenProbs_mem ratNOps _ _ _ level p).1 h
+  have hkv : k = t.levelKeyspace level := (calcKeyspace_spec t maxKeyspace fuel first).1 (level, k) hk
+  obtain ⟨N, h1, h2, h3⟩ := countP_emitted t hwf s0 hs level pws
+  refine ⟨N, h1, ?_, ?_⟩
+  · rw [h2, ← hkv]; exact hk0
+  · rw [hp, ctrGet_levelsCount, h3, h2, ← hkv]
+    rfl
+
+/-- no counted level is dropped for an empty keyspace: a level at which a training password lies has a
+non-empty keyspace, so if `calc_omen_keyspace` lists it, it receives a probability -/
+theorem C18_counted_level_listed (t : TTables) (hwf : t.WF) (s0 : CState) (hs : t.toTables.start = some s0)
+    (pws : List Str) (maxKeyspace fuel first : Nat) (pw : Str) (hpw : pw ∈ pws) (level : Nat)
+    (hl : t.trainerLevel pw = some level)
+    (hlisted : level ∈ (t.calcKeyspace maxKeyspace fuel first).map (·.1)) :
+    ∃ p : Rat, (level, p) ∈ omenProbs ratNOps (t.calcKeyspace maxKeyspace fuel first) (t.levelsCount pws) pws.length ∧ 0 < p := by
+  obtain ⟨⟨l, k⟩, hmem, hl'⟩ := List.mem_map.mp hlisted
+  simp only at hl'
+  subst hl'
+  have hkv : k = t.levelKeyspace l := (calcKeyspace_spec t maxKeyspace fuel first).1 (l, k) hmem
+  have hpos := levelKeyspace_pos_of_counted t hwf s0 hs pw l hl
+  have hk0 : k ≠ 0 := by omega
+  refine ⟨_, (omenProbs_mem ratNOps _ _ _ l _).2 ⟨k, hmem, hk0, rfl⟩, ?_⟩
+  have hc : 0 < ctrGet (t.levelsCount pws) (some l) := by
+    rw [ctrGet_levelsCount]
+    exact List.countP_pos_iff.mpr ⟨pw, hpw, by simp [hl]⟩
+  have hn : 0 < pws.length := List.length_pos_of_mem hpw
+  show (0 : Rat) < ((ctrGet (t.levelsCount pws) (some l) : Nat) : Rat) / ((pws.length : Nat) : Rat) / ((k : Nat) : Rat)
+  rw [Rat.div_def, Rat.div_def]
+  exact Rat.mul_pos (Rat.mul_pos (Rat.natCast_pos.mpr hc) (Rat.inv_pos.mpr (Rat.natCast_pos.mpr hn)))
+    (Rat.inv_pos.mpr (Rat.natCast_pos.mpr (by omega)))
+
+/-- **the Markov column is a (sub)probability distribution over Markov guesses**: every guess of a listed level
+carries that level's probability, so the mass of the listed levels is `Σ p·keyspace`; it is the fraction of the
+training passwords lying at those levels, hence at most 1. -/
+theorem C18_mass_le_one (t : TTables) (pws : List Str) (hne : pws ≠ []) (maxKeyspace fuel first : Nat) :
+    ((t.calcKeyspace maxKeyspace fuel first).filterMap fun lk => if lk.2 == 0 then none
+      else some (ratNOps.divNat (ratNOps.ratio (ctrGet (t.levelsCount pws) (some lk.1)) pws.length) lk.2 * (lk.2 : Rat))).sum ≤ 1 := by
+  rw [mass_eq]
+  apply natCast_div_le_one _ _ _ (List.length_pos_iff.mpr hne)
+  refine Nat.le_trans (countedOf_sum_le _ _) ?_
+  have hlv := (calcKeyspace_spec t maxKeyspace fuel first).2.1
+  have hnd : ((t.calcKeyspace maxKeyspace fuel first).map (·.1)).Nodup := by
+    rw [hlv]
+    exact List.Pairwise.map _ (fun a b h => by omega) List.nodup_range
+  have := sum_counts_le t.trainerLevel _ hnd pws
+  simp only [List.map_map] at this
+  refine Nat.le_trans (Nat.le_of_eq ?_) this
+  apply congrArg List.sum
+  apply List.map_congr_left
+  intro lk _
+  simp [ctrGet_levelsCount]
+
+/-- over binary64 the lines of `pcfg_omen_prob.txt` are written in non-increasing order (what the loader's
+grouping and C01 need of the `M` column), whatever the level densities are -/
+theorem C18_prob_file_sorted_binary64 (ks : List (Nat × Nat)) (c : LCtr) (n : Nat) :
+    (omenProbFile sfNOps (fun a b => decide (a ≥ b)) ks c n).Pairwise fun a b => b.2 ≤ a.2 := by
+  unfold omenProbFile
+  have := Pcfg.mostCommon_sorted (α := Nat) ⟨0, (· + ·), SF.ratio, fun a b => decide (a ≥ b)⟩
+    (by intro a b; simp; omega) (by intro a b c h1 h2; simp at *; omega) (omenProbs sfNOps ks c n)
+  unfold Pcfg.mostCommon at this
+  exact this.imp (fun {a b} h => by simpa using h)
+
+/-- non-vacuity: a bigram model, a list with two passwords at level 0 and one the model cannot place; the
+probability of level 0 is (2/3)/keyspace -/
+example :
+    let t : TTables := { ngram := 2, maxLevel := 3, entries := [⟨['a'], 0, [('a', 0), ('b', 1)]⟩, ⟨['b'], 1, [('a', 0)]⟩], lns := [0, 0, 1] }
+    let pws : List Str := [['a', 'a'], ['a', 'a'], ['z', 'z']]
+    t.levelsCount pws = [(some 0, 2), (none, 1)] ∧
+    omenProbs ratNOps (t.calcKeyspace 100 3 0) (t.levelsCount pws) pws.length = [(0, 2 / 3), (1, 0), (2, 0)] := by
+  decide +kernel
 
 end Pcfg.C18
